@@ -87,13 +87,21 @@ pub fn check(c: &Case, obs: &mut Obs) -> CheckResult {
     };
     let p = spec.parser.name();
     let mut nontrivial = false;
+    let sniffed = n % 4 == 1;
+    obs.class_if(sniffed, "reader-looked-ahead-past-the-end-before-parsing");
     for &k in &offsets {
         let mut feed = c.feed.clone();
         feed.sched.fail_at = Some((k, c.kind));
         // a glitch (end of input afterwards) at even offsets, a dead source (the error again) at odd ones
         feed.sched.sticky = k % 2 == 1;
         feed.sched.wrapped = k % 8 >= 6;
-        let (f, log) = drivers::run(&spec, data.clone(), &feed, None, true);
+        // one input in four: the caller looked ahead past the end of the input before the parser got
+        // the reader (so the parser starts on a reader that already met the failure)
+        let (f, log) = if sniffed {
+            drivers::run_sniffed(&spec, data.clone(), &feed, n + 7, true)
+        } else {
+            drivers::run(&spec, data.clone(), &feed, None, true)
+        };
         let delivered_error = log.terminal_returned && log.terminal_was_error;
         let describe = || {
             format!(
